@@ -226,6 +226,26 @@ func init() {
 			if _, _, e4 := saltpack.Verify(saltpack.CheckKnownMajorVersion, out, ring); e4 == nil {
 				fs = append(fs, Failure{Kind: "oracle", Key: "detached-accepted-as-attached", Desc: "Verify accepted a detached signature"})
 			}
+			// the armored form, with brands at the limits of what the frame grammar allows
+			brands := []string{"", "K", strings.Repeat("b", 127), strings.Repeat("B", 128)}
+			brand := brands[(len(msg)+int(pk[0]))%len(brands)]
+			if pe := guard(func() error {
+				txt, e := saltpack.Armor62Seal(out, saltpack.MessageTypeDetachedSignature, brand)
+				if e != nil {
+					return e
+				}
+				k3, br, e := saltpack.Dearmor62VerifyDetached(saltpack.CheckKnownMajorVersion, msg, txt, ring)
+				if e != nil || br != brand || !bytes.Equal(k3.ToKID(), pk) {
+					return fmt.Errorf("Dearmor62VerifyDetached: brand %q, err %v", br, e)
+				}
+				k4, _, e := saltpack.Dearmor62VerifyDetachedReader(saltpack.CheckKnownMajorVersion, iotest.OneByteReader(bytes.NewReader(msg)), txt, ring)
+				if e != nil || !bytes.Equal(k4.ToKID(), pk) {
+					return fmt.Errorf("Dearmor62VerifyDetachedReader: %v", e)
+				}
+				return nil
+			}); pe != nil {
+				fs = append(fs, Failure{Kind: "oracle", Key: "detached-roundtrip-armored", Desc: fmt.Sprintf("armored detached signature with a %d-character brand does not verify: %.200s", len(brand), pe.Error())})
+			}
 		}
 		return
 	}, trivial: func(c Case) bool { return false }}
